@@ -80,6 +80,54 @@ def read_length(string: bytes) -> tuple[int, int]:
     return int(binascii.hexlify(string[1 : 1 + llen]), 16), 1 + llen
 
 
+def _lax_integer(sig: bytes, pos: int) -> tuple[int, int]:
+    # one INTEGER as the consensus "lax" parser reads it; returns (value, new_pos)
+    if pos >= len(sig) or sig[pos] != 0x02:
+        raise UnexpectedDER("did not get expected integer 0x02")
+    pos += 1
+    if pos >= len(sig):
+        raise UnexpectedDER("ran out of length bytes")
+    length = sig[pos]
+    pos += 1
+    if length & 0x80:
+        llen = length - 0x80
+        if llen > len(sig) - pos:
+            raise UnexpectedDER("ran out of length bytes")
+        while llen > 0 and sig[pos] == 0:
+            pos += 1
+            llen -= 1
+        if llen >= 8:
+            raise UnexpectedDER("integer length too large")
+        length = int.from_bytes(sig[pos : pos + llen], "big")
+        pos += llen
+    if length > len(sig) - pos:
+        raise UnexpectedDER("ran out of integer bytes")
+    return int.from_bytes(sig[pos : pos + length], "big"), pos + length
+
+
+def sigdecode_der_lax(sig_der: bytes) -> tuple[int, int]:
+    """
+    Parse a signature the way Bitcoin consensus does outside of strict-DER rules
+    (ecdsa_signature_parse_der_lax): the sequence length is not checked, integers are
+    read as unsigned magnitudes with any number of leading zero bytes, and whatever
+    follows the second integer is ignored. Raises UnexpectedDER if it can't be parsed.
+    An integer that does not fit in 32 bytes yields (0, 0), which never verifies.
+    """
+    if len(sig_der) < 2 or sig_der[0] != 0x30:
+        raise UnexpectedDER("wanted sequence (0x30)")
+    pos = 2
+    if sig_der[1] & 0x80:
+        llen = sig_der[1] - 0x80
+        if llen > len(sig_der) - pos:
+            raise UnexpectedDER("ran out of length bytes")
+        pos += llen
+    r, pos = _lax_integer(sig_der, pos)
+    s, pos = _lax_integer(sig_der, pos)
+    if r >> 256 or s >> 256:
+        return 0, 0
+    return r, s
+
+
 def sigencode_der(r: int, s: int) -> bytes:
     return encode_sequence(encode_integer(r), encode_integer(s))
 
